@@ -64,6 +64,7 @@ type Obligation struct {
 	Model   map[string]string
 	Raw     string
 	Query   string
+	D       *Decls // the declaration registry of the function this obligation belongs to
 }
 
 // passed: a proof obligation passes iff some back end answered unsat; a vacuity guard
@@ -89,6 +90,7 @@ type Outcome struct {
 	kind  okind
 	label string
 	res   []Term
+	ret   *ast.ReturnStmt // the return statement that ended the path (nil: fell off the end)
 }
 
 type FnCtx struct {
@@ -111,6 +113,7 @@ type FnCtx struct {
 	resNames []string
 	labels   map[ast.Stmt]string
 	loopIdxVar map[ast.Node]*types.Var
+	retOrd           map[*ast.ReturnStmt]int
 	loopGhostVars    map[string]*types.Var
 	escaping         map[types.Object]bool
 	curCallArgs      []string
@@ -151,7 +154,7 @@ func (c *FnCtx) oblige(st *State, kind, detail string, p token.Pos, goal string,
 		return
 	}
 	name := c.obligationName(kind, detail, p)
-	o := &Obligation{Name: name, Fn: c.fi.Key, Kind: kind, Desc: desc, Pos: c.pos(p), Goal: goal}
+	o := &Obligation{Name: name, Fn: c.fi.Key, Kind: kind, Desc: desc, Pos: c.pos(p), Goal: goal, D: c.e.d}
 	o.Assumps = append([]string(nil), st.path...)
 	o.Assumps = append(o.Assumps, c.useHints(st)...)
 	o.Watch = map[string]string{}
